@@ -430,6 +430,23 @@ def post_call(run, snap, res, args, kwargs):
     if why:
         return run.ood(mon, why)
     if not evs:
+        # The per-arm hook is unavailable (internal function renamed or inlined).  Decide at the API boundary what can be
+        # decided there: with the outlier filter off the surviving bins follow from the filter definition alone.
+        if run.extra.get("monitor-unavailable:segmentation._do_segmentation[arm]", 0) and not snap["skip_outliers"] and "weight" in b:
+            segs = bins_of(res)
+            run._tls.last_seg = segs
+            if not segs["n"]:
+                return run.ood(mon, "no-segment-returned")
+            model = model_survivors(b, snap["skip_low"], snap["min_weight"])
+            keys = [(b["chromosome"][i], b["start"][i], b["end"][i]) for i in model]
+            v = judge(b, keys, segs, method, per_arm=False)
+            if v:
+                wit = {"method": method, "bins": {k: v_ for k, v_ in b.items() if k != "n"}, "segments": {k: v_ for k, v_ in segs.items() if k != "n"}}
+                for mech, detail in v:
+                    run.violate(mon, "boundary:" + mech, f"{method}: {detail}", wit)
+                return
+            return run.held(mon + "[boundary-only]", f"boundary:{method}")
+        run._tls.last_seg = bins_of(res) if hasattr(res, "data") else None
         return run.ood(mon, "no-arm-event-observed")
     if any(e.get("ood") for e in evs):
         return run.ood(mon, "an-arm-was-out-of-domain")
